@@ -272,7 +272,7 @@ def gen_particle(rng, weighted):
         if p or qq:
             break
     return {"p": p, "q": qq, "j": rng.randint(0, 3), "pt": rng.choice([0.25, 0.5, 0.75, 1.25, 1.5, 2.25]),
-            "eta": rng.choice([-1.25, -0.75, -0.25, 0.25, 0.75, 1.25]),
+            "eta": rng.choice([-1.25, -0.75, -0.25, 0.0, 0.25, 0.75, 1.25]),   # 0.0: exactly on the gap-0 boundary
             "w": rng.choice([0.5, 1.0, 2.0, 1.5]) if weighted and rng.random() < 0.7 else None}
 
 
@@ -405,6 +405,8 @@ def coq_case(case, got):
         bins = coq_list([f"({q(lo)}, {q(hi)}, {fres(x[0])}, {fres(x[1])})"
                          for lo, hi, x in zip(case["bins"][:-1], case["bins"][1:], r)])
         return f"(chk_rp_diff {evs} {C.coq_str(case['sel'])} {bins})"
+    if ill_conditioned(case):
+        return None                                     # resolution = sqrt(rounding noise): not compared
     evs = coq_list([f"({coq_parts(f, n)}, {coq_parts(rf, n)})" for f, rf in zip(case["flow"], case["ref"])])
     head = f"{C.coq_str(case['weight'])} {n} {q(case['gap'])} {C.coq_bool(case['self_corr'])} {evs}"
     extra = ""
